@@ -29,4 +29,8 @@ m={
 }
 import subprocess
 m["hooks"]["source_commits"]=[l.split()[0] for l in subprocess.check_output("git -C /repo log --format='%h %s' | grep 'verif hook'",shell=True,text=True).splitlines()]
+allp=[f"C{i:02d}" for i in range(1,21)]
+for q in allp:
+    if q not in props and q!="C19":
+        m["not_applicable"].append({"property_id":q,"reason":"not claimed yet: harness under construction in this session (see DESIGN.md section 5 for the planned check); no check is registered, so nothing is asserted about it"})
 json.dump(m,open('/verif/MANIFEST.json','w'),indent=1)
